@@ -57,10 +57,15 @@ CHECKS = {
  "C15": dict(level="exploration", sec="4 C15", engine="sync", tech="runtime monitoring: per-connection identity marker (PRAGMA user_version / serial number) read at every hand-out and compared with the set of poisoned / broken connections; capacity probe",
    text="Random histories of gets, interactions (ok / panic / cancelled), 'broken' markings (open transaction, has_broken, is_valid, scripted check function, failing custom query) and returns over real sqlite, r2d2 (scripted ManageConnection) and diesel-sqlite pools; every connection carries an identity marker that is read at every hand-out; at the end the full capacity must be served with healthy connections.",
    note="sqlite is the system libsqlite3 with :memory: databases; mysql/postgres diesel backends are not driven."),
+ "C16": dict(level="exploration", sec="4 C16", engine="pg", tech="runtime monitoring: scripted PostgreSQL wire server (in-memory duplex per connection) logging every frontend message; client identity probe at every hand-out; cache/registry model",
+   text="The real tokio-postgres client talks to a scripted v3-protocol server through Manager::from_connect. The server's per-connection message log decides which check was issued between two hand-outs, on which connection a statement was parsed (and with which parameter types) and whether a cache hit caused traffic; the harness kills connections and fails checks at scripted points and tracks which clients the pool owns for the registry clauses.",
+   note="No TLS, no real server; type resolution beyond built-in OIDs is not driven."),
+ "C18": dict(level="exploration", sec="4 C18", engine="pg", tech="runtime monitoring: generated Config values checked against an independent reference translation through tokio_postgres::Config getters; built pools observed against a scripted server on a loopback port",
+   text="Every field of Config is set/unset independently with hostile textual values, URLs in both syntaxes (valid and invalid), every enum variant, USER set and unset; get_pg_config() is compared option by option with a reference translation, panics are violations. create_pool() results are observed on the built pool: max_size, timeouts, queue mode (order of reuse) and recycling method (check query seen by the server), and the missing-runtime build error.",
+   note="The URL grammar itself is tokio-postgres's; the reference uses the same parser for the URL part only."),
 }
 PENDING = {
- "C16": "not built yet in this revision", "C17": "not built yet in this revision",
- "C18": "not built yet in this revision", "C19": "not built yet in this revision",
+ "C17": "not built yet in this revision", "C19": "not built yet in this revision",
 }
 # allow the table to be overridden by a sibling file as the build progresses
 ov = os.path.join(ROOT, "tools", "manifest_table.py")
